@@ -210,6 +210,41 @@ func fpPoly(h evid.H, p mldsaref.Poly) evid.H {
 	return h
 }
 
+// candBuf is one persistent signature buffer and one persistent message buffer: every verify
+// candidate of a case is copied to their start and handed over as a sub-slice, so that the same
+// backing array (same pointer, mostly the same length) carries different candidates one after the
+// other. A verifier that remembered a decision by the identity of its arguments instead of their
+// content would disagree with the reference.
+type candBuf struct {
+	sig, msg []byte
+	reused   int
+}
+
+const candBufSize = 8192 // every signature (ML-DSA-87 + RSA-4096 + prefix, doubled) and message of this package
+
+func bufView(buf *[]byte, b []byte) []byte {
+	if b == nil {
+		return nil
+	}
+	if cap(*buf) < len(b) {
+		n := candBufSize
+		for n < len(b) {
+			n *= 2
+		}
+		*buf = make([]byte, n)
+	}
+	v := (*buf)[:len(b)]
+	copy(v, b)
+	return v
+}
+
+func (c *candBuf) views(sig, msg []byte) (s, m []byte) {
+	if c.sig != nil && cap(c.sig) >= len(sig) && (msg == nil || cap(c.msg) >= len(msg)) {
+		c.reused++
+	}
+	return bufView(&c.sig, sig), bufView(&c.msg, msg)
+}
+
 func arr32(b []byte) (a [32]byte) { copy(a[:], b); return }
 func arr34(b []byte) (a [34]byte) { copy(a[:], b); return }
 func arr64(b []byte) (a [64]byte) { copy(a[:], b); return }
